@@ -52,7 +52,8 @@ struct Drv {
   malformed_write: bool,  // system-call mode: the bytes of the write being logged were not a well-formed batch
   log_state: bool,        // walks: log the shadow mapper's state next to every event it is given
   phys_down: Vec<KeyCode>, // keys down on the scripted device (what EVIOCGKEY reports in the full-stack runs)
-  stuck: bool, send_failed: bool
+  stuck: bool, send_failed: bool,
+  nsends: usize, send_fault: usize   // walks: every send_fault-th write is answered EAGAIN (0 = never); the other writes succeed
 }
 
 impl Drv {
@@ -219,6 +220,8 @@ impl ScriptedDriver for Drv {
     // a consumer that stays stalled: once an injected failure has hit a write, every later write fails as well
     let fail = fail || (self.stuck && self.send_failed);
     if fail { self.send_failed = true; }
+    self.nsends += 1;
+    let fail = fail || (self.send_fault != 0 && self.nsends % self.send_fault == 0);
     rec["evs"] = jevs(evs);
     if self.malformed_write { rec["evs"].as_array_mut().unwrap().push(json!({"t": "?", "k": "malformed write"})); self.malformed_write = false; }
     rec["res"] = json!(if fail { "err" } else { "ok" });
@@ -246,7 +249,7 @@ fn new_drv(layout: &Layout, labels: &[Lbl], fault: usize, sleep: &[String]) -> D
     k_ready: false, t_ready: false, ended: false, log: vec![],
     shadow: Mapper::for_layout(layout), fresh: Mapper::for_layout(layout), layout: layout.clone(), in_tab: false,
     calls: 0, fault, cap: 400 + 20 * labels.len(), sleep: sleep.to_vec(), nsleep: 0, intr_ok: true, arr_k: vec![], arr_t: vec![],
-    malformed_write: false, log_state: false, phys_down: vec![], stuck: true, send_failed: false
+    malformed_write: false, log_state: false, phys_down: vec![], stuck: true, send_failed: false, nsends: 0, send_fault: 0
   }
 }
 
@@ -588,11 +591,37 @@ fn run_one_sys(id: &str, layout: &Layout, labels: &[Lbl], fault: usize, sleep: &
 // system-call level: one event per wake-up, a reset = the tablet switch going on and off within one wake-up. The result
 // has the shape of a direct walk - per event what was WRITTEN to the virtual keyboard after it was read, plus the state
 // and the repeat request of the shadow mapper that is given the same events - and is judged by the same MapperTrace.tla.
-fn walk_run(layout: &Layout, history: &[(Option<Event>, Vec<Event>)], noise: u8) -> (Sys, std::thread::Result<Result<(), String>>) {
+struct WLcg(u64);
+impl WLcg {
+  fn next(&mut self) -> u64 { self.0 = self.0.wrapping_mul(6364136223846793005).wrapping_add(1442695040888963407); self.0 >> 33 }
+  fn below(&mut self, n: u64) -> u64 { self.next() % n }
+}
+
+// wake = 0: one event per wake-up. wake != 0 (a seed): runs of up to four consecutive key events have all arrived when the loop
+// wakes up (it reads them in one drain), and now and then a signal interrupts the wait in front of a wake-up; the grouping is a
+// function of the seed and the position only, so that a prefix of the history is grouped the same way (replay).
+// sendfault = k: every k-th write is answered EAGAIN (0 = never); a loop that stops at the first one never meets the second.
+fn walk_run(layout: &Layout, history: &[(Option<Event>, Vec<Event>)], noise: u8, wake: u64, sendfault: usize) -> (Sys, std::thread::Result<Result<(), String>>) {
   let mut labels: Vec<Lbl> = vec![];
-  for (h, unseen) in history {
+  let mut rng = WLcg(wake.wrapping_mul(2654435761).wrapping_add(99991));
+  let mut i = 0;
+  while i < history.len() {
+    let (h, unseen) = &history[i];
+    i += 1;
     match h {
-      Some(e) => { labels.push(Lbl::ArrK(Some(e.clone()))); labels.push(Lbl::PollDev(true)); labels.push(Lbl::ReadK); labels.push(Lbl::ReadK); },
+      Some(e) => {
+        let mut group = vec![e.clone()];
+        if wake != 0 {
+          if rng.below(100) < 6 { labels.push(Lbl::PollIntr); }
+          while group.len() < 4 && i < history.len() && history[i].0.is_some() && rng.below(100) < 55 {
+            group.push(history[i].0.clone().unwrap());
+            i += 1;
+          }
+        }
+        for g in &group { labels.push(Lbl::ArrK(Some(g.clone()))); }
+        labels.push(Lbl::PollDev(true));
+        for _ in 0..=group.len() { labels.push(Lbl::ReadK); }
+      },
       None if unseen.is_empty() => { labels.push(Lbl::ArrT(true)); labels.push(Lbl::ArrT(false)); labels.push(Lbl::PollDev(true)); labels.push(Lbl::ReadT); labels.push(Lbl::ReadT); labels.push(Lbl::ReadT); },
       None => {
         // the switch goes on, keys move while tablet mode is on (the loop reads and drops them), the switch goes off: separate wake-ups
@@ -605,10 +634,11 @@ fn walk_run(layout: &Layout, history: &[(Option<Event>, Vec<Event>)], noise: u8)
   let mut d = new_drv(layout, &labels, 0, &[]);
   d.log_state = true;
   d.cap = 100 + 12 * labels.len();
+  d.send_fault = sendfault;
   let _ = ScriptedDriver::register_poll(&mut d);
   let (kfd, tfd, wfd) = (new_fd(), new_fd(), new_fd());
   let unknown_code = (1u16..768).rev().find(|c| <KeyCode as FromPrimitive>::from_u16(*c).is_none()).unwrap_or(767);
-  sys_install(Sys { d, kfd, tfd, wfd, kbytes: VecDeque::new(), tbytes: VecDeque::new(), noise, full: None, down: vec![], werr: E_IO, unknown_code });
+  sys_install(Sys { d, kfd, tfd, wfd, kbytes: VecDeque::new(), tbytes: VecDeque::new(), noise, full: None, down: vec![], werr: if sendfault != 0 { E_AGAIN } else { E_IO }, unknown_code });
   let lay = layout.clone();
   let r = std::panic::catch_unwind(std::panic::AssertUnwindSafe(|| crate::remapping_loop::verif::run_real_driver(kfd, wfd, Some(tfd), lay)));
   let sys = sys_take();
@@ -617,45 +647,60 @@ fn walk_run(layout: &Layout, history: &[(Option<Event>, Vec<Event>)], noise: u8)
 }
 
 // the same run written as a call trace for LoopTrace.tla
-pub fn walk_via_loop_trace(id: &str, layout: &Layout, history: &[(Option<Event>, Vec<Event>)], noise: u8, out: &mut dyn Write) {
-  let (mut sys, r) = walk_run(layout, history, noise);
+pub fn walk_via_loop_trace(id: &str, layout: &Layout, history: &[(Option<Event>, Vec<Event>)], noise: u8, wake: u64, out: &mut dyn Write) {
+  let (mut sys, r) = walk_run(layout, history, noise, wake, 0);
   for rec in sys.d.log.iter_mut() { if let Some(o) = rec.as_object_mut() { o.remove("st"); } }
   write_trace(id, layout, 0, &[], &sys.d, r, json!({"mode": "sys", "slack": 999, "errtext": false, "noise": noise, "werr": 5}), out);
 }
 
-pub fn walk_via_loop(layout: &Layout, history: &[(Option<Event>, Vec<Event>)], noise: u8) -> Vec<Value> {
-  let (sys, r) = walk_run(layout, history, noise);
+pub fn walk_via_loop(layout: &Layout, history: &[(Option<Event>, Vec<Event>)], noise: u8, wake: u64, sendfault: usize) -> Vec<Value> {
+  let (sys, r) = walk_run(layout, history, noise, wake, sendfault);
+  // One record per event the loop read, in reading order. What the loop wrote is attributed to the event it belongs to by the
+  // call sequence: a write belongs to the event read last - except that a reader which fetched several events ahead of the loop
+  // (several reads in a row without a write) is given the benefit of the doubt: a write that is exactly what the shadow mapper
+  // answers to the OLDEST fetched event that still waits for a non-empty answer belongs to that event.
   let mut out: Vec<Value> = vec![];
-  let mut cur: Option<Value> = None;
+  let mut wants: Vec<(usize, Value)> = vec![];     // (index in out, the shadow's answer) of events read since the last write, oldest first
+  let mut failed_write = false;
+  let mut cut: Option<usize> = None;               // the step whose write failed, while nothing has been read or written since
   for rec in &sys.d.log {
     match (rec["c"].as_str().unwrap_or(""), rec["res"].as_str().unwrap_or("")) {
       ("kbd", "one") if rec["st"].is_null() => {         // read while tablet mode is on: the mapper is not given it; part of the reset step
-        if let Some(c) = cur.as_mut() {
+        if let Some(c) = out.last_mut() {
           if c["e"]["unseen"].is_null() { c["e"]["unseen"] = json!([]); }
           c["e"]["unseen"].as_array_mut().unwrap().push(rec["e"].clone());
         }
       },
       ("kbd", "one") => {
-        if let Some(c) = cur.take() { out.push(c); }
-        cur = Some(json!({"c": "step", "e": rec["e"], "ev": [], "rep": rec["ref"]["rep"], "st": rec["st"], "panic": ""}));
+        cut = None;
+        out.push(json!({"c": "step", "e": rec["e"], "ev": [], "rep": rec["ref"]["rep"], "st": rec["st"], "panic": ""}));
+        wants.push((out.len() - 1, rec["ref"]["ev"].clone()));
       },
       ("tab", "one") => {
-        let ra = cur.as_ref().map(|c| c["e"]["t"].as_str() == Some("RA")).unwrap_or(false);
-        if ra { cur.as_mut().unwrap()["st"] = rec["st"].clone(); }
-        else {
-          if let Some(c) = cur.take() { out.push(c); }
-          cur = Some(json!({"c": "step", "e": {"t": "RA", "k": ""}, "ev": [], "rep": {"kind": "NoChange"}, "st": rec["st"], "panic": ""}));
-        }
+        wants.clear();
+        let ra = out.last().map(|c| c["e"]["t"].as_str() == Some("RA")).unwrap_or(false);
+        if ra { out.last_mut().unwrap()["st"] = rec["st"].clone(); }
+        else { out.push(json!({"c": "step", "e": {"t": "RA", "k": ""}, "ev": [], "rep": {"kind": "NoChange"}, "st": rec["st"], "panic": ""})); }
       },
       ("send", "ok") => {
-        if let Some(c) = cur.as_mut() { for e in rec["evs"].as_array().unwrap() { c["ev"].as_array_mut().unwrap().push(e.clone()); } }
+        cut = None;
+        let mut at = out.len().wrapping_sub(1);
+        if wants.len() > 1 {
+          if let Some(p) = wants.iter().position(|(_, want)| want.as_array().map(|a| !a.is_empty()).unwrap_or(false)) {
+            if wants[p].1 == rec["evs"] { at = wants[p].0; wants.drain(0..=p); } else { wants.clear(); }
+          } else { wants.clear(); }
+        } else { wants.clear(); }
+        if let Some(c) = out.get_mut(at) { for e in rec["evs"].as_array().unwrap() { c["ev"].as_array_mut().unwrap().push(e.clone()); } }
       },
+      ("send", "err") => { failed_write = true; cut = Some(out.len().saturating_sub(1)); },
       _ => ()
     }
   }
-  if let Some(c) = cur.take() { out.push(c); }
-  // a loop that panicked or gave up is a walk that ends in a panic record (judged by C14 only)
-  let bad = match r { Ok(Ok(())) => String::new(), Ok(Err(e)) => format!("the loop returned an error: {}", e), Err(e) => panic_msg(e) };
+  // a loop that panicked or gave up is a walk that ends in a panic record (judged by C14 only); a loop that stops with an
+  // error because a write failed is simply the end of the walk
+  // (the step whose write failed is not judged when the loop did nothing more after it: it stopped there, as it may)
+  if let Some(c) = cut { out.truncate(c); }
+  let bad = match r { Ok(Ok(())) => String::new(), Ok(Err(_)) if failed_write => String::new(), Ok(Err(e)) => format!("the loop returned an error: {}", e), Err(e) => panic_msg(e) };
   if !bad.is_empty() {
     let st = out.last().map(|c| c["st"].clone()).unwrap_or(jstate(&Mapper::for_layout(layout).verif_snapshot()));
     out.push(json!({"c": "step", "e": {"t": "RA", "k": ""}, "ev": [], "rep": {"kind": "NoChange"}, "st": st, "panic": bad}));
